@@ -60,6 +60,13 @@ THEOREMS = [NS + n for n in [
     "diff_leaf_skip_matches_eq",
     "leaf_difference_seen_iff_eq_sees",
     "not_value_variant_witness",
+    "matched_pair_keep_iff_locally_equal",
+    "updatable_changed_pair_is_update",
+    "local_difference_surfaces_partial",
+    "move_iff_parents_not_matched",
+    "ident_dict_collapse_witness",
+    "generated_ignored_leaves_are_lists",
+    "class_tables_decision",
 ]]
 
 
@@ -68,6 +75,19 @@ def _const_fraction(node) -> Fraction | None:
     if isinstance(node, ast.Constant) and isinstance(node.value, (int, float)) and not isinstance(node.value, bool):
         return Fraction(repr(node.value))
     return None
+
+
+def class_table_lean(chk) -> str:
+    """the live class tables: for every Expression subclass, is it updatable / ignored (isinstance semantics)"""
+    _, exp, D = sg()
+    import inspect
+
+    classes = sorted({c for _, c in inspect.getmembers(exp, inspect.isclass) if issubclass(c, exp.Expr)}, key=lambda c: c.__name__)
+    rows = [(c.__name__, issubclass(c, D.UPDATABLE_EXPRESSION_TYPES), issubclass(c, D.IGNORED_LEAF_EXPRESSION_TYPES)) for c in classes]
+    chk.cov["class_table"] = {"classes": len(rows), "updatable": sum(r[1] for r in rows), "ignored": [r[0] for r in rows if r[2]]}
+    body = ", ".join(f"({'true' if u else 'false'}, {'true' if i else 'false'})" for _, u, i in rows)
+    return ("/-- (updatable, ignored) for every live Expression subclass, by class name order -/\n"
+            f"def classTable : List (Bool × Bool) := [{body}]\n")
 
 
 def translate(chk: Check) -> str:
@@ -116,6 +136,7 @@ def translate(chk: Check) -> str:
         problems.append("threshold constants of _compute_matching_set not recognised")
         hi, lo, min_leaves = hi or Fraction(4, 5), lo or Fraction(2, 5), 4 if min_leaves is None else min_leaves
     cmp_idents = None
+    idents_as_dict = False
     for cls in [n for n in tree.body if isinstance(n, ast.ClassDef) and n.name == "ChangeDistiller"]:
         for fn in [n for n in cls.body if isinstance(n, ast.FunctionDef) and n.name == "_generate_edit_script"]:
             for n in ast.walk(fn):
@@ -127,9 +148,13 @@ def translate(chk: Check) -> str:
                                   "_get_ignored_leaves(source_node) != _get_ignored_leaves(target_node))"):
                         helper = [f for f in tree.body if isinstance(f, ast.FunctionDef) and f.name == "_get_ignored_leaves"]
                         body = ast.unparse(helper[0].body[-1]) if helper else ""
+                        # the container type of the ignored leaves is pinned: an ordered list of (arg key, node) pairs
                         if body == ("return [(node.arg_key, node) for node in expression.iter_expressions() "
                                     "if isinstance(node, IGNORED_LEAF_EXPRESSION_TYPES)]"):
-                            cmp_idents = True
+                            cmp_idents, idents_as_dict = True, False
+                        elif body == ("return {node.arg_key: node for node in expression.iter_expressions() "
+                                      "if isinstance(node, IGNORED_LEAF_EXPRESSION_TYPES)}"):
+                            cmp_idents, idents_as_dict = True, True
     if cmp_idents is None:
         problems.append("Keep-vs-Update test of _generate_edit_script not recognised")
         cmp_idents = False
@@ -287,9 +312,10 @@ def translate(chk: Check) -> str:
         f"def updatableTypes : List String := {ls(tables['UPDATABLE_EXPRESSION_TYPES'])}\n"
         f"def ignoredLeafTypes : List String := {ls(tables['IGNORED_LEAF_EXPRESSION_TYPES'])}\n"
         f"def comparesIgnoredLeaves : Bool := {'true' if cmp_idents else 'false'}\n"
+        f"def ignoredLeavesAsDict : Bool := {'true' if idents_as_dict else 'false'}\n"
         f"def countsPrematchedLeaves : Bool := {'true' if count_pre else 'false'}\n"
         f"def wrapperPolicy : SqlglotModel.Diff.Wrapper.Policy := ⟨.{wp['src']}, .{wp['tgt']}, .{wp['evict']}⟩\n"
-        + translate.leaf_tables +
+        + translate.leaf_tables + class_table_lean(chk) +
         "end SqlglotModel.Generated.C20\n"
     )
 
@@ -379,7 +405,7 @@ def encode_pair(src, tgt):
     """-> (src_json, tgt_json, ids: id(node)->int, nodes: int->node). Node ids: source 0.., target n.."""
     _, exp, D = sg()
     ids, nodes = {}, {}
-    cls_i, ty_i, nel_i, eq_i, idk_i, lay_i = {}, Interner(), Interner(), {}, Interner(), Interner()
+    cls_i, ty_i, nel_i, eq_i, akey_i, lay_i = {}, Interner(), Interner(), {}, {}, Interner()
     out = []
     for root in (src, tgt):
         for n in root.walk():
@@ -408,7 +434,7 @@ def encode_pair(src, tgt):
                 isinstance(n, D.UPDATABLE_EXPRESSION_TYPES),
                 nel_i.get(dict(D._get_non_expression_leaves(n))),
                 eq,
-                idk_i.get([(k.arg_key, k) for k in n.iter_expressions() if isinstance(k, D.IGNORED_LEAF_EXPRESSION_TYPES)]),
+                akey_i.setdefault(n.arg_key, len(akey_i)),
                 0,  # txt: filled in by real_case with the text the distiller's generator renders
                 lay_i.get([(k.arg_key, isinstance(k, D.IGNORED_LEAF_EXPRESSION_TYPES)) for k in n.iter_expressions()]),
             ])
@@ -507,7 +533,8 @@ def validate_axioms(tap, sj, tj, ids, nodes, dice):
                 pass
     ign = {r[0] for r in rows.values() if r[5]}
     def sig(r):
-        return (r[1], r[7], r[9], r[11], tuple(rows[k][8] for k in r[4] if k not in ign))
+        idents = tuple((rows[k][9], rows[k][8]) for k in r[4] if k in ign)  # Tree.idk: (arg key class, == class) in order
+        return (r[1], r[7], idents, r[11], tuple(rows[k][8] for k in r[4] if k not in ign))
     by_sig = {}
     for r in sj["nodes"]:
         if not r[5]:
@@ -1084,6 +1111,9 @@ def perturb_case(d, q, pos, arg, vname):
     t1 = parse(q, d)
     t2 = t1.copy()
     node = list(t2.walk())[pos]
+    if arg == "__ident__":
+        node.args["this"] = str(node.args.get("this")) + "zz"  # rename one Identifier child, nothing else
+        return t1, t2
     v = dict(SCALAR_VALUES)[vname]
     if v is ABSENT:
         node.args.pop(arg, None)
@@ -1858,6 +1888,40 @@ def search(chk: Check, hints: list, budget_s: float) -> None:
                                      {"kind": "perturb", "read": d, "sql": q, "pos": pos, "arg": arg, "value": vname,
                                       "src": dump_tree(t1), "tgt": dump_tree(t2), "src_sql": q, "tgt_sql": None},
                                      context={"kind": kind, "cause": cause})
+    # identifier perturbations: rename ONE Identifier (also one of several in the same list argument: USING (a, b),
+    # alias column lists, INSERT column lists): the trees become unequal, so the delta must not be empty
+    seen_ident = {}
+    extra = [(None, "SELECT a FROM t JOIN u USING (a, b)"), (None, "SELECT x FROM (SELECT 1, 2) AS s(a, b)"),
+             (None, "WITH c(a, b) AS (SELECT 1, 2) SELECT a FROM c"), (None, "INSERT INTO t (a, b) VALUES (1, 2)"),
+             (None, "SELECT a.b.c.d.e FROM t"), (None, "CREATE TABLE t (a INT, b TEXT, PRIMARY KEY (a, b))")]
+    for d, q in extra + dialect_corpus():
+        try:
+            nodes_q = list(parse(q, d).walk())
+        except Exception:  # noqa
+            continue
+        for pos, nd in enumerate(nodes_q):
+            if not is_ident(nd) or nd.parent is None or len(chk.violations) >= 3:
+                continue
+            sib = sum(1 for k in nd.parent.iter_expressions() if is_ident(k) and k.arg_key == nd.arg_key)
+            key = (type(nd.parent).__name__, nd.arg_key, min(sib, 2), nd.index if sib > 1 else 0)
+            if seen_ident.get(key, 0) >= chk.pick(1, 3):
+                continue
+            seen_ident[key] = seen_ident.get(key, 0) + 1
+            res = perturb_oracle(d, q, pos, "__ident__", "str")
+            n_sw += 1
+            if res == "skip":
+                n_skip += 1
+            elif res:
+                kind, detail = res
+                found += 1
+                t1, t2 = perturb_case(d, q, pos, "__ident__", "str")
+                cause = "ident-rename" + ("-in-list" if sib > 1 else "")
+                chk.report_violation(f"{kind}:{cause}|{key[0]}.{key[1]}",
+                                     f"{detail}: one Identifier under {key[0]}.{key[1]} renamed ({sib} identifier(s) in that argument)",
+                                     {"kind": "perturb", "read": d, "sql": q, "pos": pos, "arg": "__ident__", "value": "str",
+                                      "src": dump_tree(t1), "tgt": dump_tree(t2), "src_sql": q, "tgt_sql": None},
+                                     context={"kind": kind, "cause": cause})
+    chk.count("search:ident-perturbation-sites", sum(seen_ident.values()))
     chk.count("search:perturbations", n_sw)
     chk.count("search:perturbations-unrenderable", n_skip)
     chk.cov.setdefault("perturbation", {})["seconds"] = round(time.time() - t_sw, 1)
